@@ -6,6 +6,7 @@ import LenaModel.Lemmas.C07Level
 import LenaModel.Lemmas.C07Tok
 import LenaModel.Lemmas.C07Ext
 import LenaModel.Lemmas.C07Mut
+import LenaModel.Lemmas.C07Share
 /-! # C07 — property theorems (nested-dictionary algebra)
 
 Dictionaries are slot vectors over the key alphabet of a case (`Model/Val.lean`); all theorems are
@@ -22,7 +23,9 @@ are statements relative to that order; `inter_level0`, `inter_level1_key`, `inte
 
 Leaves: `α` with decidable equality, i.e. the leaves of the real values are assumed to have a reflexive `==` that
 `copy.deepcopy` preserves (no NaN, no objects compared by identity); arguments are tree-shaped and pairwise disjoint
-object graphs wherever identities are involved (the token and write-log models allocate per occurrence). -/
+object graphs wherever identities are involved (the token and write-log models allocate per occurrence) — except in the
+last section, "arguments with shared objects", where an identity may occur at several places of the arguments and
+`copy.deepcopy` memoises (`Model/C07Share.lean`). -/
 
 namespace Lena.C07
 open Lena Lena.Val
@@ -1329,5 +1332,144 @@ example : interN 2 1 [[some (.dict [some (.leaf (1 : Nat)), some (.leaf 2)]), no
       = [none, none] ∧
     contained (-1) [some (.dict [some (.leaf (1 : Nat)), none]), none]
       [some (.dict [some (.leaf 1), some (.leaf 2)]), none] = true := by decide +kernel
+
+/-! ## arguments with shared objects (one object reachable twice, within an argument or from two arguments)
+
+The lattice theorems above are about values, and by value a dictionary `{"variable": s, "previous": s}` whose two items
+are one object is the tree it unfolds to.  That the *code* computes the value of the unfolded tree is not automatic: it
+prunes a copy in place, and `copy.deepcopy` keeps the sharing.  `Model/C07Share.lean` transcribes `intersection` with the
+memoising copy on values whose identities may repeat. -/
+
+omit [DecidableEq α] in
+/-- `copy.deepcopy` (memoising) is the identity on values, whatever is shared -/
+theorem deepcopy_memo_value (v : TVal α) (c : Nat) : eraseV (memoCopyV v c).1 = eraseV v :=
+  erase_memoCopyV v c
+
+omit [DecidableEq α] in
+/-- `copy.deepcopy` preserves exactly the sharing of its argument: two objects of the copy are the same object iff
+they are copies of the same object -/
+theorem deepcopy_memo_sharing (v : TVal α) (c s t : Nat) (hs : s ∈ toksV v) :
+    memoNew (firsts (toksV v)) c s = memoNew (firsts (toksV v)) c t ↔ s = t := by
+  constructor
+  · intro e
+    exact memoIdx_inj s t _ ((mem_firsts s _).2 hs) (by simp only [memoNew] at e; omega)
+  · rintro rfl; rfl
+
+omit [DecidableEq α] in
+/-- every object of the copy is new (`c ≤ · < next`): "as a deep copy" for arguments with shared objects -/
+theorem deepcopy_memo_fresh (v : TVal α) (c : Nat) :
+    ∀ u ∈ toksV (memoCopyV v c).1, c ≤ u ∧ u < (memoCopyV v c).2 := by
+  intro u hu
+  simp only [memoCopyV, toksV_renV, List.mem_map] at hu ⊢
+  obtain ⟨s, hs, rfl⟩ := hu
+  have := memoIdx_lt s _ ((mem_firsts s _).2 hs)
+  simp only [memoNew]
+  omega
+
+omit [DecidableEq α] in
+/-- the root of the copy of a dictionary that does not contain itself occurs exactly once in the copy, however much
+is shared below it: it is the object `c`, and `c` is not among the objects of its items -/
+theorem deepcopy_root_once (t : Nat) (l : TSlots α) (c : Nat) (h : AcyclicV (.dict t l)) :
+    memoNew (firsts (t :: toksL l)) c t = c ∧ c ∉ toksL (memoCopyD t l c).1 := by
+  constructor
+  · simp [memoNew, firsts, memoIdx]
+  · exact memoCopyD_root_not_inside t l c h.1
+
+omit [DecidableEq α] in
+/-- a store `res[key] = x` / `del res[key]` into an object that occurs only at the root changes that one slot and
+nothing else — all stores of `intersection` are of this kind (`res` is the root of a copy made by the running call,
+`deepcopy_root_once`), which is why `interSL` may compute slot by slot although the copy keeps the sharing -/
+theorem store_root_once (t k : Nat) (x : Option (TVal α)) (l : TSlots α) (h : t ∉ toksL l) :
+    storeV t k x (.dict t l) = .dict t (storeTop k x l) := by
+  simp [storeV, storeL_not_mem t k x l h]
+
+omit [DecidableEq α] in
+/-- a store into an object that is not reachable changes nothing (the frame of `store_root_once`) -/
+theorem store_elsewhere (t k : Nat) (x : Option (TVal α)) (v : TVal α) (h : t ∉ toksV v) : storeV t k x v = v :=
+  storeV_not_mem t k x v h
+
+/-- the loop `for key in res:` of `intersection`, executed as what it is — stores `res[key] = …` / `del res[key]` into the
+ONE object `res`, each changing every place at which that object occurs (`storeV`) — computes slot by slot what `interSL`
+computes, for every `res` that occurs only at its own root and is older than the objects created in the loop: no store
+of `intersection` hits a second place, however much the items of `res` share -/
+theorem inter_stores_hit_one_place (lv : Int) (t : Nat) (l : TSlots α) (d : Slots α) (c : Nat)
+    (hc : t < c) (h : t ∉ toksL l) :
+    interObjLoop lv t 0 l d (.dict t l) c = (.dict t (interSL lv l d c).1, (interSL lv l d c).2) := by
+  simpa using interObjLoop_eq lv t l d [] c hc (by simp [toksL]) h
+
+/-- `intersection(d1, d2, level)` with the loop executed as stores into the deep copy of `d1` — which keeps all the
+sharing of `d1` (`deepcopy_memo_sharing`) — is `interS`, for every `d1` that does not contain itself -/
+theorem inter_object_level (n : Nat) (lv : Int) (c t : Nat) (l0 : TSlots α) (b : TVal α)
+    (h0 : lv ≠ 0) (hac : AcyclicV (.dict t l0)) :
+    interObj2 lv c t l0 (argSlotsS b) = interS n lv c [.dict t l0, b] := by
+  have hr := memoCopyD_range t l0 c
+  have hroot := memoCopyD_root_not_inside t l0 c hac.1
+  simp only [interObj2, interS, List.map, interSFold, h0, if_false]
+  rw [inter_stores_hit_one_place lv c _ _ _ hr.1 hroot]
+  split <;> rfl
+
+/-- `intersection` of arguments with shared objects has the value of `intersection` of the unfolded trees: sharing —
+within the first argument, within the others, between them — does not influence the result -/
+theorem inter_shared_value (n : Nat) (lv : Int) (c t : Nat) (l0 : TSlots α) (rest : List (TVal α)) :
+    eraseV (interS n lv c (.dict t l0 :: rest)).1 = .dict (interN n lv (eraseL l0 :: rest.map argSlotsS)) := by
+  simp only [interS, interN]
+  rw [erase_interSFold, erase_memoCopyD]
+
+/-- … and consists of new objects only: it shares nothing with any argument ("as a deep copy") -/
+theorem inter_shared_is_copy (n : Nat) (lv : Int) (c : Nat) (args : List (TVal α)) :
+    ∀ u ∈ toksV (interS n lv c args).1, c ≤ u := by
+  cases args with
+  | nil =>
+    intro u hu
+    simp only [interS, emptyT, toksV, List.mem_cons] at hu
+    rcases hu with hu | hu
+    · omega
+    · exact FreshL_replicate_none c n u hu
+  | cons a rest =>
+    cases a with
+    | leaf ts x =>
+      intro u hu
+      simp only [interS, emptyT, toksV, List.mem_cons] at hu
+      rcases hu with hu | hu
+      · omega
+      · exact FreshL_replicate_none c n u hu
+    | dict t l0 =>
+      have hr := memoCopyD_range t l0 c
+      simp only [interS]
+      exact interSFold_fresh lv c c (Nat.le_refl _) _ _ _ (memoCopyD_fresh t l0 c) (by omega)
+
+-- the adversary's example: d1 = {"previous": s, "variable": s} with ONE object s = {"name": 0, "unit": 1} (identity 1),
+-- d2 = {"previous": {"name": 0, "unit": 1}, "variable": {"name": 0}}; alphabet name, previous, unit, variable; next identity 5.
+-- The value is the greatest common part {"previous": s, "variable": {"name": 0}}; "previous" is still the copy (object 6)
+-- of s made with d1, "variable" the new object 7 that the recursive call made
+private def sShared : TVal Nat := .dict 1 [some (.leaf [] 0), none, some (.leaf [] 1), none]
+private def d1Shared : TVal Nat := .dict 0 [none, some sShared, none, some sShared]
+private def d2Tree : TVal Nat :=
+  .dict 2 [none, some (.dict 3 [some (.leaf [] 0), none, some (.leaf [] 1), none]), none,
+           some (.dict 4 [some (.leaf [] 0), none, none, none])]
+example : (interS 4 (-1) 5 [d1Shared, d2Tree]).1 =
+    .dict 5 [none, some (.dict 6 [some (.leaf [] 0), none, some (.leaf [] 1), none]), none,
+             some (.dict 7 [some (.leaf [] 0), none, none, none])] := by
+  simp [interS, interSFold, interSL, interSO, memoCopyD, memoNew, memoIdx, firsts, renL, renV, sShared, d1Shared, d2Tree,
+    argSlotsS, eraseV, eraseL, toksV, toksL, nonEmpty]
+-- the same by executing the loop as stores into the copy (object 5)
+example : (interObj2 (-1) 5 0 [none, some sShared, none, some sShared] (argSlotsS d2Tree)).1 =
+    .dict 5 [none, some (.dict 6 [some (.leaf [] 0), none, some (.leaf [] 1), none]), none,
+             some (.dict 7 [some (.leaf [] 0), none, none, none])] := by
+  rw [inter_object_level 4 (-1) 5 0 _ d2Tree (by decide) (by simp [AcyclicV, AcyclicL, sShared, toksL, toksV])]
+  simp [interS, interSFold, interSL, interSO, memoCopyD, memoNew, memoIdx, firsts, renL, renV, sShared, d2Tree,
+    argSlotsS, eraseV, eraseL, toksV, toksL, nonEmpty]
+example : AcyclicV d1Shared := by simp [AcyclicV, AcyclicL, d1Shared, sShared, toksL, toksV]
+-- the copy of d1 keeps the sharing: both items are the new object 6
+example : (memoCopyV d1Shared 5).1 =
+    .dict 5 [none, some (.dict 6 [some (.leaf [] 0), none, some (.leaf [] 1), none]), none,
+             some (.dict 6 [some (.leaf [] 0), none, some (.leaf [] 1), none])] := by
+  simp [memoCopyV, memoNew, memoIdx, firsts, renL, renV, sShared, d1Shared, toksV, toksL]
+-- … so pruning the copy's item "variable" in place (`del res["variable"]["unit"]` on object 6, what `store_root_once`
+-- excludes) would also prune "previous": a store into an object that occurs twice changes both places
+example : storeV 6 2 none (memoCopyV d1Shared 5).1 =
+    .dict 5 [none, some (.dict 6 [some (.leaf [] 0), none, none, none]), none,
+             some (.dict 6 [some (.leaf [] 0), none, none, none])] := by
+  simp [memoCopyV, memoNew, memoIdx, firsts, renL, renV, sShared, d1Shared, toksV, toksL, storeV, storeL, storeTop]
 
 end Lena.C07
